@@ -114,9 +114,97 @@ fn violation(v: Option<ConstraintViolation>) -> Value {
     }
 }
 
+struct TagKey;
+
+/// An objective whose fitness is looked up by the tag stored in the solution state (exact f64 bit patterns).
+struct TableObjective {
+    values: Vec<Float>,
+}
+
+impl FeatureObjective for TableObjective {
+    fn fitness(&self, solution: &InsertionContext) -> Float {
+        let tag = *solution.solution.state.get_value::<TagKey, usize>().expect("tagged solution");
+        self.values[tag]
+    }
+
+    fn estimate(&self, _: &MoveContext<'_>) -> Float {
+        0.
+    }
+}
+
+fn bits(v: &Value) -> Float {
+    Float::from_bits(v.as_str().unwrap().parse::<u64>().unwrap())
+}
+
+/// Goal comparison replay: `fitness[layer][solution]` as decimal strings of the IEEE bit patterns.
+fn goal_order(case: &Value) {
+    use vrp_core::models::{Extras, GoalBuilder, Problem};
+    let layers = case["fitness"].as_array().unwrap();
+    let mut builder = GoalBuilder::default();
+    for layer in layers {
+        let values = layer.as_array().unwrap().iter().map(bits).collect();
+        builder = builder.add_single(Arc::new(TableObjective { values }));
+    }
+    let goal = builder.build().unwrap();
+
+    let vehicle = Vehicle {
+        profile: Profile::default(),
+        costs: costs(&Value::Null),
+        dimens: Default::default(),
+        details: vec![VehicleDetail {
+            start: Some(VehiclePlace { location: 0, time: TimeInterval { earliest: Some(0.), latest: None } }),
+            end: None,
+        }],
+    };
+    let driver = Driver { costs: costs(&Value::Null), dimens: Default::default(), details: vec![] };
+    let fleet = Arc::new(Fleet::new(vec![Arc::new(driver)], vec![Arc::new(vehicle)], |_| |_| 0));
+    let transport: Arc<dyn TransportCost> =
+        Arc::new(Matrix { dur: HashMap::new(), dist: HashMap::new(), dur_default: 0., dist_default: 0. });
+    let activity: Arc<dyn ActivityCost> = Arc::new(SimpleActivityCost::default());
+    let feature = TransportFeatureBuilder::new("transport")
+        .set_transport_cost(transport.clone())
+        .set_activity_cost(activity.clone())
+        .build_minimize_cost()
+        .unwrap();
+    let goal_ctx = GoalContextBuilder::with_features(&[feature]).unwrap().build().unwrap();
+    let logger: vrp_core::rosomaxa::utils::InfoLogger = Arc::new(|_| ());
+    let jobs = vrp_core::models::problem::Jobs::new(&fleet, vec![], transport.as_ref(), &logger).unwrap();
+    let problem = Arc::new(Problem {
+        fleet,
+        jobs: Arc::new(jobs),
+        locks: vec![],
+        goal: Arc::new(goal_ctx),
+        activity,
+        transport,
+        extras: Arc::new(Extras::default()),
+    });
+    let environment = Arc::new(vrp_core::rosomaxa::utils::Environment::default());
+    let n = layers[0].as_array().unwrap().len();
+    let solutions: Vec<InsertionContext> = (0..n)
+        .map(|tag| {
+            let mut ctx = InsertionContext::new_empty(problem.clone(), environment.clone());
+            ctx.solution.state.set_value::<TagKey, usize>(tag);
+            ctx
+        })
+        .collect();
+    let ord = |a: usize, b: usize| goal.total_order(&solutions[a], &solutions[b]) as i8;
+    let mut table = vec![];
+    for a in 0..n {
+        let mut row = vec![];
+        for b in 0..n {
+            row.push(ord(a, b));
+        }
+        table.push(row);
+    }
+    println!("{}", serde_json::to_string(&json!({"order": table})).unwrap());
+}
+
 fn main() {
     let path = std::env::args().nth(1).expect("usage: verif-replay <case.json>");
     let case: Value = serde_json::from_str(&std::fs::read_to_string(path).unwrap()).unwrap();
+    if case["kind"] == "goal_order" {
+        return goal_order(&case);
+    }
 
     let closed = case["closed"].as_bool().unwrap_or(true);
     let l0 = case["l0"].as_u64().unwrap_or(0) as usize;
@@ -181,6 +269,8 @@ fn main() {
         .unwrap()
     };
 
+    let f_reach = create_reachable_feature("reachable", transport.clone(), ViolationCode(5)).unwrap();
+
     let goal = GoalContextBuilder::with_features(&[f_cost.clone()]).unwrap().build().unwrap();
     let registry = Registry::new(&fleet, Arc::new(DefaultRandom::default()));
     let solution_ctx = SolutionContext {
@@ -221,6 +311,7 @@ fn main() {
         out["evaluate_transport"] = violation(f_cost.constraint.as_ref().unwrap().evaluate(&move_ctx));
         out["evaluate_capacity"] = violation(f_cap.constraint.as_ref().unwrap().evaluate(&move_ctx));
         out["evaluate_limits"] = violation(f_limit.constraint.as_ref().unwrap().evaluate(&move_ctx));
+        out["evaluate_reachable"] = violation(f_reach.constraint.as_ref().unwrap().evaluate(&move_ctx));
         out["estimate_cost"] = json!(f_cost.objective.as_ref().unwrap().estimate(&move_ctx));
         out["estimate_distance"] = json!(f_dist.objective.as_ref().unwrap().estimate(&move_ctx));
         out["estimate_duration"] = json!(f_dur.objective.as_ref().unwrap().estimate(&move_ctx));
